@@ -43,6 +43,14 @@ def _eval_loaded(req):
         if req.get("files") is not None:
             fsys = simfs.activate(8192)
             fsys.files.update(req["files"])
+        if req.get("warmup"):
+            # the loading process is not empty: it has already built and ranked another object
+            from parser.Wrappers import parse_belief_base
+
+            wbb = parse_belief_base(req["warmup"])
+            wo = PreOCF.init_system_z(wbb)
+            wo.compute_all_ranks()
+            out["warmup_worlds"] = len(wo.ranks)
         o = PreOCF.load_ocf(req["path"], trusted=True)
         out["desc"] = _describe(o)
         out["sample"] = {w: o.rank_world(w) for w in req.get("worlds", [])}
@@ -586,6 +594,8 @@ class Run:
                 got["tb"] = traceback.format_exc()[-900:]
         else:
             req = {"path": path, "worlds": ws, "queries": qs, "full": full}
+            if self.doc.get("restart_warmup"):
+                req["warmup"] = self.doc["restart_warmup"]
             if where == "restart":
                 req["files"] = {path: self.fs.files[path]}
                 got = self.helper.ask(req)
@@ -1447,11 +1457,26 @@ def generate(prop, verif_seed, idx, tier="quick", cls=None):
     final = {"where": g.choice(["inproc", "restart"])}
     if tier == "thorough" and g.random() < 0.04:
         final = {"where": "exec"}
-    return {"property": prop, "seed": sseed, "idx": idx, "class": cls, "knobs": knobs, "base": {"text": text, "src": src}, "obj": obj, "queries": queries, "ops": ops, "final": final, "faults": []}
+    warm = None
+    if g.random() < 0.4:
+        # the process that reloads has already worked on another base (same atoms, other order)
+        wsig = list(sig)
+        g.shuffle(wsig)
+        _, wconds = W.gen_base(g, want="consistent", max_conds=3, style="literal", exact_atoms=len(sig))
+        ren = dict(zip(W.ATOMS[: len(sig)], wsig))
+
+        def _rn(f):
+            return ("var", ren.get(f[1], f[1])) if f[0] == "var" else (f[0],) + tuple(_rn(x) if isinstance(x, tuple) else x for x in f[1:])
+
+        warm = W.base_text(wsig, [(_rn(b), _rn(a)) for b, a in wconds], name="other")
+    doc = {"property": prop, "seed": sseed, "idx": idx, "class": cls, "knobs": knobs, "base": {"text": text, "src": src}, "obj": obj, "queries": queries, "ops": ops, "final": final, "faults": []}
+    if warm:
+        doc["restart_warmup"] = warm
+    return doc
 
 
 def canonical(doc):
-    d = {k: doc.get(k) for k in ("property", "knobs", "base", "obj", "obj2", "queries", "ops", "faults", "final")}
+    d = {k: doc.get(k) for k in ("property", "knobs", "base", "obj", "obj2", "queries", "ops", "faults", "final", "restart_warmup")}
     return hashlib.sha256(json.dumps(d, sort_keys=True).encode()).hexdigest()
 
 
@@ -1619,5 +1644,7 @@ def shrink_candidates(doc):
             yield dict(doc, ops=ops[:i] + [dict(op, conds=op["conds"][:1])] + ops[i + 1 :])
     if (doc.get("final") or {}).get("where") not in (None, "inproc"):
         yield dict(doc, final={"where": "inproc"})
+    if doc.get("restart_warmup"):
+        yield {k: v for k, v in doc.items() if k != "restart_warmup"}
     if (doc.get("knobs") or {}).get("bufsize", 8192) != 8192:
         yield dict(doc, knobs=dict(doc["knobs"], bufsize=8192))
